@@ -9,25 +9,36 @@ from props import c08
 
 ID = "C13"
 LEAN_MODEL_TARGETS = ["drv_c08", "drv_c13close"]
-LEAN_PROOF_TARGETS = ["PyroProps.C13", "PyroProps.C13Ast"]
-AUDIT_FILES = ["PyroModel/Server.lean", "PyroModel/Gen/C13.lean", "PyroProps/C13.lean", "PyroModel/PyIR.lean", "PyroProps/C13Ast.lean"]
+LEAN_PROOF_TARGETS = ["PyroProps.C13", "PyroProps.C13Ast", "PyroProps.C13Src"]
+AUDIT_FILES = ["PyroModel/Server.lean", "PyroModel/Gen/C13.lean", "PyroProps/C13.lean", "PyroModel/PyIR.lean", "PyroProps/C13Ast.lean",
+               "PyroModel/Cleanup.lean", "PyroProps/C13Src.lean"]
 THEOREMS = ["Pyro.C13.C13_once", "Pyro.C13.C13_closes_what_is_tracked", "Pyro.C13.C13_endings_close",
             "Pyro.C13.C13_idempotent_close", "Pyro.C13.C13_frame", "Pyro.C13.C13_daemon", "Pyro.C13.C13_gen_facts",
             # SocketConnection.close transcribed from the source on every run (py2ir.py): never raises, closes every tracked
             # resource exactly once whatever raises, leaves nothing behind; keep_open touches nothing; a second close closes nothing
-            "Pyro.C13Ast.close_translated", "Pyro.C13Ast.close_keep_open", "Pyro.C13Ast.close_twice"]
-SUITES = ["cleanup", "close"]
+            "Pyro.C13Ast.close_translated", "Pyro.C13Ast.close_keep_open", "Pyro.C13Ast.close_twice",
+            # SocketServer_Multiplex.events transcribed on every run (props/c13_tr.py, shallow embedding over PyroModel/Cleanup.lean):
+            # equal to the hand model for all rounds; a poll round with any number of ready sockets makes hook / unregister / close
+            # exactly once for each connection that ended in it, in order, and for no other
+            "Pyro.C13Src.C13_events_translated", "Pyro.C13Src.C13_round_cleanup", "Pyro.C13Src.C13_round_once",
+            "Pyro.C13Src.C13_source_round_once"]
+SUITES = ["cleanup", "rounds", "close"]
 RULE = ("histories over 1-3 connections on the real thread-pool and multiplex transports (in-memory sockets): accepted handshake, "
         "0-5 requests that track / untrack resources, use a session-mode object, return, raise every exception class, then an "
         "ending (orderly eof at a boundary, cut at every kind of offset, garbage, timeout, security error, callback re-raise) "
-        "while other connections stay open; a second sweep cuts one fixed request at EVERY byte offset; non-trivial = an "
+        "while other connections stay open; a second sweep cuts one fixed request at EVERY byte offset; suite `rounds`: 2-4 "
+        "connections delivered to the multiplex server in poll rounds of SEVERAL ready sockets in arbitrary order (ended ones not "
+        "last, two ended together, the listening socket among them), compared with the same items one by one; non-trivial = an "
         "accepted connection that tracked >= 1 resource and ended; distinct = distinct model line x transport")
 ASSUMPTIONS = ["garbage collection of weakly tracked resources is not exercised (the harness keeps them alive)",
                "a daemon shut down while connections are open is outside the property's list of endings"]
 TRUSTED = ["harness/srvkit.py (in-memory sockets, fake selector/listener; real Daemon, real transports, real Pool)",
            "harness/py2ir.py + lean/PyroModel/PyIR.lean as the meaning of the fragment SocketConnection.close is written in "
            "(with contextlib.suppress(Exception), for over a collection, method calls that may raise); exercised on every run by "
-           "suite `close`: the real method on fake sockets / resources vs the interpreter on the transcription (drv_c13close)"]
+           "suite `close`: the real method on fake sockets / resources vs the interpreter on the transcription (drv_c13close)",
+           "harness/props/c13_tr.py (ast -> combinators of lean/PyroModel/Cleanup.lean, refuses what it does not know) and the "
+           "meaning of those combinators; the transcription of events() is not run by a driver (drv_c13 is still a placeholder): "
+           "it is tied by the proof C13_events_translated and the real events() by suite `rounds` against the sequential model"]
 
 
 def extract():
@@ -79,9 +90,18 @@ def extract():
     import py2ir
     tr = py2ir.Tr(socketutil)
     close_ast = py2ir.wrap(tr.function("close", ["self"], owner=socketutil.SocketConnection))
+    # SocketServer_Multiplex.events, transcribed by the per-property translator (shallow embedding over PyroModel/Cleanup.lean);
+    # c13_tr.Untranslatable propagates: the runner reports the broken tie and searches for a failing input
+    from props import c13_tr
+    events_src = c13_tr.translate_events(svr_multiplex)
     return f"""-- GENERATED by harness/props/c13.py from Pyro5/svr_threads.py, svr_multiplex.py, socketutil.py — do not edit
 import PyroModel.PyIR
+import PyroModel.Cleanup
 namespace Pyro.Gen.C13
+open Pyro.Cleanup in
+/-- `SocketServer_Multiplex.events(self, eventsockets)` as it is written now (harness/props/c13_tr.py) -/
+def eventsSrc (hr : HookBehaviour) (eventsockets : List Ev) : Stmt :=
+  {events_src}
 /-- `SocketConnection.close(self)` as it is written now (harness/py2ir.py, one node per Python AST node) -/
 def closeSrc : Pyro.PyIR.Stmt :=
   {close_ast}
@@ -290,6 +310,161 @@ def _run(ctx, name, n, do_model, sweep=True):
                 ctx.mismatch("cleanup", {"line": l, "servertype": c["servertype"], "case": c}, r, m)
 
 
+# ---- poll rounds of the multiplex server: SEVERAL ready sockets handed to events() at once ------------------------
+def gen_rounds(g, rng):
+    """a history over 2-4 connections, delivered to the multiplex server in poll rounds: every round hands events() a list of
+    SEVERAL ready sockets at once (connections with a request pending, connections that have just ended - not only in last
+    position -, the listening socket with a new client waiting), in an arbitrary order.  Handled one after the other in list
+    order, as events() does, a round is the same as its items delivered one by one: the flattened history is what the model
+    and the oracle see."""
+    nconn = rng.choice([2, 3, 3, 4])
+    per = {}
+    for c in range(nconn):
+        items = [("msg", {"type": 1, "ser": rng.choice([1, 2, 3, 4]), "seq": rng.randint(0, 65535), "oneway": False,
+                          "body": ("handshake", True, True, "accept") if rng.random() < 0.9 else ("handshake", True, True, "raises")})]
+        for _ in range(rng.choice([0, 1, 1, 2, 3])):
+            ser = rng.choice([1, 2, 3, 4])
+            ow = rng.random() < 0.1
+            spec = g.method(ow)
+            if rng.random() < 0.6:
+                spec["track"] = rng.sample(range(1, 7), rng.choice([1, 2, 3]))
+            if rng.random() < 0.3:
+                spec["untrack"] = rng.sample(range(1, 7), rng.choice([1, 2]))
+            if rng.random() < 0.3 and not spec.get("callback"):
+                spec["session"] = True
+            items.append(("msg", {"type": 4, "ser": ser, "seq": rng.randint(0, 65535), "oneway": ow,
+                                  "body": ("call", ("method", spec))}))
+        if rng.random() < 0.8:
+            items.append(rng.choice([("cut", 0.0), ("cut", rng.random()), ("cut", 0.999), ("timeout",),
+                                     ("cut", 0.0, "reset"), ("cut", rng.random(), "reset"),
+                                     ("garbage", rng.randrange(len(srvkit.GARBAGE))),
+                                     ("msg", {"type": rng.choice([1, 2, 3, 5, 0, 77]), "ser": 2, "seq": 1, "oneway": False,
+                                              "body": ("undecodable",)})]))
+        per[c] = items
+    idx = {c: 0 for c in per}
+    rounds = []
+    while any(idx[c] < len(per[c]) for c in per):
+        live = [c for c in per if idx[c] < len(per[c])]
+        k = len(live) if rng.random() < 0.6 else rng.randint(1, len(live))
+        chosen = rng.sample(live, k)
+        rnd, new_seen = [], False
+        for c in chosen:
+            if idx[c] == 0:
+                if new_seen:
+                    continue        # the listening socket is reported once per round and accept() takes one client
+                new_seen = True
+            rnd.append((c, per[c][idx[c]]))
+            idx[c] += 1
+        rounds.append(rnd)
+    rounds = [localise(nconn, r) for r in rounds]
+    return nconn, rounds
+
+
+def run_rounds(nconn, rounds, hook_raises=(), linger=None, commtimeout=0.0, collect=True):
+    """the real multiplex server, its events() called once per round with all the round's ready sockets"""
+    rig = srvkit.Rig("multiplex", linger=linger, commtimeout=commtimeout)
+    rig.hook_raises = set(hook_raises)
+    try:
+        srv = rig.daemon.transportServer
+        for rnd in rounds:
+            ready, fed = [], []
+            for c, it in rnd:
+                while len(rig.socks) <= c:
+                    rig.socks.append(srvkit.FakeSock(len(rig.socks)))
+                    rig.socks[-1].strict_timeout = bool(rig.commtimeout)
+                s = rig.socks[c]
+                first = c not in rig.started
+                if not first and rig._mux_conn(c) is None:
+                    continue                    # that connection is gone already: nothing reports its socket as ready
+                data, ending = c08.item_bytes(it, first=first)
+                s.peername_fails = (ending == "reset")
+                s.feed(data)
+                if ending:
+                    s.end(ending)
+                if first:
+                    rig.started[c] = True
+                    rig.listener.queue.append(s)
+                    ready.append(rig.listener)
+                else:
+                    ready.append(rig._mux_conn(c))
+                fed.append(c)
+            srv.sock = rig.listener
+            try:
+                srv.events(ready)
+                # bytes still buffered behind the message that was handled (pipelined data): signalled again, one at a time
+                for c in fed:
+                    guard = 0
+                    while rig._mux_conn(c) is not None and rig.socks[c].inbound:
+                        srv.events([rig._mux_conn(c)])
+                        guard += 1
+                        if guard > 1000:
+                            raise srvkit.Stuck("multiplex events loop")
+            finally:
+                srv.sock = rig.real_sock
+            rig._wait_oneway()
+        obs = [rig.observe(c) if c in rig.started else None for c in range(nconn)]
+        for o in obs:
+            if o is not None:
+                o["all_execs"] = [t for _, t in rig.execs]
+        if collect:
+            rig.collect_garbage()
+        res = {r: rig.resources[r].closes for r in rig.resources}
+        return obs, res, rig.pool_accounting()
+    finally:
+        rig.close()
+
+
+def _guarded(ctx, st, case, fn):
+    """run the real server; what escapes it is a failure of the property (see _run)"""
+    try:
+        return fn()
+    except srvkit.Stuck as x:
+        ctx.fail("stuck:" + st, "the %s server got stuck: %r" % (st, x), case)
+    except (OSError, RuntimeError, ValueError, KeyError, AttributeError, TypeError) as x:
+        ctx.fail("server-loop-raises:" + st, "the %s server's event handling raises %r: the ended connection is not cleaned up "
+                 "and the request loop ends" % (st, x), case)
+    except srvkit.Blocked as x:
+        ctx.fail("no-server-timeout:" + st, "COMMTIMEOUT is %.1f but a silent peer is never timed out, so its connection is never "
+                 "cleaned up and (multiplex) nothing else is served: %s" % (case.get("commtimeout", 0.0), x), case)
+    return None
+
+
+def _run_rounds(ctx, name, n, do_model):
+    rng = ctx.sub_rng(name)
+    g = c08.Gen(rng)
+    lines, reals, cases = [], [], []
+    st = "multiplex"
+    for i in range(n):
+        nconn, rounds = gen_rounds(g, rng)
+        evs = [e for r in rounds for e in r]
+        hook_raises = [c for c in range(nconn) if (len(evs) + c) % 3 == 0]
+        linger = 0 if len(evs) % 2 == 0 else None
+        ct = 0.5 if (any(it[0] == "timeout" for _, it in evs) or len(evs) % 3 == 1) else 0.0
+        case = {"servertype": st, "nconn": nconn, "evs": evs, "rounds": rounds, "hook_raises": hook_raises, "linger": linger,
+                "commtimeout": ct}
+        got = _guarded(ctx, st, case, lambda: run_rounds(nconn, rounds, hook_raises, linger=linger, commtimeout=ct))
+        if got is None:
+            continue
+        obs, res, pool = got
+        ctx.evaluations += 1
+        lines.append(c08.hist_line(nconn, evs))
+        reals.append(real_line(obs, res, st))
+        cases.append(case)
+        _oracle_case(ctx, st, nconn, evs, obs, res, pool, case)
+        # non-trivial: a round in which a connection ended and was NOT the last ready socket of that round
+        big = max(len(r) for r in rounds)
+        ctx.count("round-size:%d" % big)
+        if any(o is not None and o["sockclosed"] and o["replies"] and o["replies"][0][0] == 2 for o in obs) and big >= 2:
+            ctx.nontriv(lines[-1] + "rounds")
+    if do_model and lines:
+        outs = common.run_driver("drv_c08", lines)
+        ctx.corr_cases += len(lines)
+        for l, r, o, c in zip(lines, reals, outs, cases):
+            m = model_line(o)
+            if r != m:
+                ctx.mismatch("rounds", {"line": l, "servertype": st, "case": c}, r, m)
+
+
 # ---- SocketConnection.close on its own: the real method vs the PyIR interpreter on its transcription ------------
 def _close_suite(ctx, n):
     from Pyro5 import socketutil
@@ -373,12 +548,14 @@ def _close_suite(ctx, n):
 
 def correspondence(ctx):
     _run(ctx, "hist", ctx.n(90, 1200), True)
+    _run_rounds(ctx, "rounds", ctx.n(120, 2000), True)
     _close_suite(ctx, ctx.n(400, 20000))
 
 
 def oracle(ctx):
     if ctx.search_mode:
         _run(ctx, "search", ctx.n(200, 3000), False)
+        _run_rounds(ctx, "search-rounds", ctx.n(300, 4000), False)
 
 
 def replay(ctx, case):
@@ -389,7 +566,13 @@ def replay(ctx, case):
         return 1
     evs = [(e[0], c08._untuple(e[1])) for e in c["evs"]]
     try:
-        obs, res, pool = c08.run_real(c["servertype"], c["nconn"], evs, c.get("hook_raises", ()), linger=c.get("linger"), collect=True,
+        if c.get("rounds"):
+            rounds = [[(e[0], c08._untuple(e[1])) for e in r] for r in c["rounds"]]
+            print("poll rounds (connections ready together):", [[e[0] for e in r] for r in rounds])
+            obs, res, pool = run_rounds(c["nconn"], rounds, c.get("hook_raises", ()), linger=c.get("linger"),
+                                        commtimeout=c.get("commtimeout", 0.0))
+        else:
+            obs, res, pool = c08.run_real(c["servertype"], c["nconn"], evs, c.get("hook_raises", ()), linger=c.get("linger"), collect=True,
                                       commtimeout=c.get("commtimeout", 0.0))
     except srvkit.Blocked as x:
         print("history:", c08.hist_line(c["nconn"], evs))
